@@ -892,6 +892,24 @@ def cigar_cycle(ctx, ali, rows2, ref, seg, ri, si, introns, dm, hc, itg, as_stri
     if not (isinstance(bt, np.ndarray) and bt.ndim == 2 and bt.tolist() == exp_trace):
         ctx.fail("cigar_roundtrip", "trace after CIGAR %s round trip differs" % _short(cigar),
                  got=np.asarray(bt).tolist(), expected=exp_trace, position=position, options=_short(kwargs))
+    if as_string and not hc and (c0 >= 2 or c1 >= 2) and isinstance(cigar, str):
+        # the same alignment as a SAM record would carry it when the outer part of each clipped end was hard clipped and the
+        # inner part soft clipped (e.g. 4H3S10M2S5H): the hard-clipped bases are not in the sequence that is given
+        import re as _re
+        h0 = (1 + (c0 + len(cols)) % (c0 - 1)) if c0 >= 2 else 0
+        h1 = (1 + (c1 + 2 * len(cols)) % (c1 - 1)) if c1 >= 2 else 0
+        body = cigar
+        if c0 > 0:
+            body = _re.sub(r"^%dS" % c0, ("%dH" % h0 if h0 else "") + "%dS" % (c0 - h0), body)
+        if c1 > 0:
+            body = _re.sub(r"%dS$" % c1, "%dS" % (c1 - h1) + ("%dH" % h1 if h1 else ""), body)
+        seg_mixed = seg[h0:len(seg) - h1]
+        ctx.op("read_alignment_from_cigar[hard+soft clip]")
+        back2 = align.read_alignment_from_cigar(body, position, ref, seg_mixed)
+        exp2 = [[r, (s_ - h0) if s_ != -1 else -1] for r, s_ in cols]
+        if np.asarray(back2.trace).tolist() != exp2:
+            ctx.fail("cigar_roundtrip", "trace read from %s (hard and soft clips at one end) differs from the one read from %s"
+                     % (_short(body), _short(cigar)), got=np.asarray(back2.trace).tolist(), expected=exp2)
     if len(back.sequences) != 2 or back.sequences[0] is not ref and not (back.sequences[0] == ref):
         ctx.fail("cigar_roundtrip", "reference sequence changed by the CIGAR reader")
     if not np.array_equal(back.sequences[1].code, seg_read.code):
@@ -1104,6 +1122,27 @@ def case_helpers(rng, ctx):
                                             pair=bool(rng.random() < 0.25))
     kind, size = meta["kinds"][0]
     check_helpers(ctx, rng, ali, rows, seqs, kind, size)
+    # an excerpt (column slice) in which one row consists of gaps only: every column of it lies before that sequence starts
+    # or after it ends, so no column is free of terminal gaps - the reported range is empty
+    nrow = len(seqs)
+    for i in range(nrow):
+        col = [r[i] for r in rows]
+        lead = next((k for k, v in enumerate(col) if v != -1), len(col))
+        trail = len(col) - 1 - next((k for k, v in enumerate(reversed(col)) if v != -1), len(col))
+        spans = [(0, lead)] if lead >= 1 else []
+        if trail < len(col) - 1:
+            spans.append((trail + 1, len(col)))
+        for a, b in spans:
+            sub = ali[a:b]
+            if not any(any(v != -1 for v in r) for r in rows[a:b]):
+                continue
+            ctx.op("find_terminal_gaps[row_of_gaps_only]")
+            ctx.oracle("terminal_gaps_vs_model")
+            got = align.find_terminal_gaps(sub)
+            if not int(got[1]) <= int(got[0]):
+                ctx.fail("terminal_gaps_vs_model", "find_terminal_gaps of an excerpt whose row %d has no symbol returned the non-empty range %r"
+                         % (i, tuple(int(x) for x in got)), excerpt=rows[a:b])
+            break
 
 
 # ===================================================================== slicing
